@@ -380,7 +380,7 @@ func TestC18(t *testing.T) {
 	t.Run("primitives", func(t *testing.T) {
 		i := 0
 		for _, prim := range []string{"str", "numlist", "fixlist", "strlist", "strlist-inner", "objlist"} {
-			for _, pfx := range []string{"uint8", "uint16"} {
+			for _, pfx := range []string{"uint8", "uint16", "def-uint8", "def-uint16"} {
 				for _, le := range []bool{false, true} {
 					max := int(NMask(pfx))
 					for _, n := range []int{max - 1, max, max + 1, max + 2, max + 77, 2*max + 2, 3*max + 3} {
@@ -402,7 +402,7 @@ func TestC18(t *testing.T) {
 				}
 			}
 		}
-		Col.MarkExhaustive("6 prefixed writers x {uint8,uint16} x {BE,LE} x lengths {max-1,max,max+1,max+2,max+77,2max+2,3max+3}")
+		Col.MarkExhaustive("6 prefixed writers x {uint8,uint16 and defined types over them} x {BE,LE} x lengths {max-1,max,max+1,max+2,max+77,2max+2,3max+3}")
 	})
 	t.Run("element-error-propagates", func(t *testing.T) {
 		for _, pfx := range PrefixTypes {
@@ -419,7 +419,7 @@ func TestC18(t *testing.T) {
 		CheckProp(t, "C18", "c18prim", "primitives-random", func(rt *rapid.T) *CaseC18Prim {
 			c := &CaseC18Prim{
 				Prim:   rapid.SampledFrom([]string{"str", "numlist", "fixlist", "strlist", "strlist-inner", "objlist"}).Draw(rt, "prim"),
-				Prefix: rapid.SampledFrom([]string{"uint8", "uint8", "uint16"}).Draw(rt, "prefix"),
+				Prefix: rapid.SampledFrom([]string{"uint8", "uint8", "uint16", "def-uint8", "def-uint16"}).Draw(rt, "prefix"),
 				LE:     rapid.Bool().Draw(rt, "le"),
 			}
 			max := int(NMask(c.Prefix))
